@@ -148,3 +148,31 @@ Definition do_bintest (phi_neg : Q -> Q) (bins : list bin) (segs : option (list 
   (alpha : Q) (target_only : bool) : list (nat * Q * Q) :=
   let cs := candidates bins segs target_only in
   bintest_with (map (fun c => p_of phi_neg (cand_z c)) cs) cs alpha.
+
+(* ---- the table do_bintest returns ------------------------------------------ *)
+(* cnarr["log2"] = resid; cnarr["probes"] = 1; cnarr["p_bintest"] = z_prob(cnarr); cnarr[is_sig]:
+   the input's columns in their order with log2 overwritten in place, then the two new columns
+   (a bin table carries no probes column) *)
+Definition bintest_columns (has_depth : bool) : list string :=
+  ["chromosome"; "start"; "end"; "gene"; "log2"; "weight"]%string ++
+  (if has_depth then ["depth"%string] else []) ++ ["probes"; "p_bintest"]%string.
+
+Definition set_log2 (b : bin) (r : Q) : bin :=
+  mkBin (b_chr b) (b_start b) (b_end b) (b_gene b) r (b_weight b) (b_depth b).
+
+(* one output row: index label, the bin with its residual as log2, probes, adjusted p *)
+Record hit_row := mkHitRow { h_idx : nat; h_bin : bin; h_probes : Z; h_p : Q }.
+
+Definition bintest_table_with (ps : list (option Q)) (cs : list cand) (alpha : Q) : list hit_row :=
+  concat (map (fun cq =>
+    match snd cq with
+    | Some q => if qlt_b q alpha
+                then [mkHitRow (c_idx (fst cq)) (set_log2 (c_bin (fst cq)) (c_res (fst cq))) bt_probes q]
+                else []
+    | None => []
+    end) (combine cs (bh_opt ps))).
+
+Definition do_bintest_table (phi_neg : Q -> Q) (bins : list bin) (segs : option (list seg))
+  (alpha : Q) (target_only : bool) : list hit_row :=
+  let cs := candidates bins segs target_only in
+  bintest_table_with (map (fun c => p_of phi_neg (cand_z c)) cs) cs alpha.
